@@ -37,7 +37,8 @@ META = {
                    "by the correspondence only."),
     'rule': ("cases = residue graphs built with the real constructors (from_monomer_seq_linear, parse_ig circular, "
              "MetaMolecule(graph) with shuffled edge order, direct add_edge in random order) over the 12 table names, plus "
-             "unknown names at every position; non-trivial = at least 2 residues or a rejection; distinct by (names, keys, adjacency)"),
+             "unknown names at every position; non-trivial = at least 2 residues or a rejection; distinct by (names, keys, adjacency)"
+             "; directed / added families (waves 10-12): residue graphs without resid attributes"),
 }
 
 LETTERS = ['A', 'C', 'G', 'T']
